@@ -703,6 +703,13 @@ func planC11(tier string, seed int64) (*Plan, error) {
 		}
 		jobs = append(jobs, job("H_c11_gfm", "extra", ex, "n", 4, "alpha", "a|-\n~[] x:w.@"))
 	}
+	gfmSeeds := append([]string{"| a |\n|---|\n| `x \\| y` |\n", "a|b\n-|:-\n`c\\|d`|~~e~~\n", "- [x] www.a.bc ~~s~~\n", "| [ ] |\n|-|\n| x@y.zw |\n"}, c11Seeds...)
+	for i, sd := range gfmSeeds {
+		ex := []string{"", "footnote,typographer"}[i%2]
+		for _, q := range []int{len(sd), (i*5 + int(seed)) % len(sd)} {
+			jobs = append(jobs, job("H_c11_gfm", "extra", ex, "seed", sd, "pos", q, "window", 1))
+		}
+	}
 	if thorough {
 		jobs = append(jobs, job("H_c11_gfm", "n", 3))
 		jobs = append(jobs, job("H_c11_gfm", "n", 6, "alpha", "a|-\n~:w."))
@@ -756,7 +763,7 @@ func planC11(tier string, seed int64) (*Plan, error) {
 		"S(2)":          "every byte string of length 0..2 without the trigger set, both bases; S(3) for a seeded fifth of the extensions (all in thorough)",
 		"S(L,alphabet)": fmt.Sprintf("length 4 (thorough 6) over a per-extension 8-byte alphabet and length 5 (7) over its first 5 bytes: %v", c11Alpha),
 		"findings":      "S(7,{a,space,LF,#}) Linkify; S(6,{a,LF,*,[}) CJK",
-		"GFM":           "GFM vs Table+Strikethrough+Linkify+TaskList: S(2) and S(4,{a,|,-,LF,~,[,],space,x,:,w,.,@}) with and without Footnote+Typographer",
+		"GFM":           "GFM vs Table+Strikethrough+Linkify+TaskList: every feature seed plus 4 table/code-span/task-list seeds with one symbolic byte at 2 offsets; S(2) and S(4,{a,|,-,LF,~,[,],space,x,:,w,.,@}) with and without Footnote+Typographer",
 		"W(C,1)":        fmt.Sprintf("%d seeded (trigger-free corpus document, offset) pairs per extension with one symbolic byte (assumed outside the trigger set)", nwin),
 		"outside":       "longer inputs; combinations of parser options other than autoid+attr",
 	}
@@ -905,6 +912,20 @@ func planC08(tier string, seed int64) (*Plan, error) {
 	}
 	jobs = append(jobs, tokenJobs("H_c08_quote", []string{"contain5"}, nt, []string{coreU})...)
 	jobs = append(jobs, tokenJobs("H_c08_quote", []string{"blocks2noTab"}, nt-2, []string{gfmX})...)
+	// constructs that span lines (labels, titles, code spans, raw HTML, emphasis, hard breaks): inside a quote the
+	// lines of one block are not contiguous in the source
+	multi := []string{
+		"[foo\nbar]\n\n[foo bar]: /url\n", "[foo\nbar][]\n\n[foo bar]: /url\n", "![foo\nbar]\n\n[foo bar]: /u\n", "[a][foo\nbar]\n\n[foo bar]: /u\n",
+		"`a\nb` c\n", "x <a\nhref='y'> z\n", "[a](/u\n'ti tle') b\n", "*a\nb* **c\nd**\n", "[a]: /u\n  'mul\n  ti'\n\n[a]\n", "a  \nb\\\nc\n",
+		"[a\nb](/u) ![c\nd](/v)\n", "<!-- a\nb --> c\n", "a <?x\ny?> b\n", "- [foo\n  bar]\n\n[foo bar]: /u\n", "a\n===\n\nb\nc\n---\n",
+	}
+	for i, sd := range multi {
+		c := cfgs[i%len(cfgs)]
+		for _, q := range []int{len(sd), (i * 7) % len(sd), (i*3 + int(seed)) % len(sd)} {
+			jobs = append(jobs, job("H_c08_quote", "cfg", c, "seed", sd, "pos", q, "window", 1))
+		}
+		jobs = append(jobs, job("H_c08_quote", "cfg", c, "seed", sd, "pos", len(sd), "window", 1, "nest", 2))
+	}
 	// corpus: W(C',1) over documents without TAB/CR
 	docs, err := LoadCorpus()
 	if err != nil {
@@ -939,6 +960,7 @@ func planC08(tier string, seed int64) (*Plan, error) {
 		"S(L,alphabet)": fmt.Sprintf("length %d (one less for alphabets over 6 bytes) over each of %q", la, alphas),
 		"tokens":        fmt.Sprintf("every sequence of %d tokens from each of %q (HTML block types 1-7 opened, closed and followed by more lines; %d tokens quoted twice), %d from contain5, %d from blocks2 without TAB (GFM)", nt, htmlToks, nt-1, nt, nt-2),
 		"W(C',1)":       fmt.Sprintf("%d seeded (TAB/CR-free corpus document, offset) pairs with one symbolic byte", nwin),
+		"multi-line":    fmt.Sprintf("%d documents whose inline constructs span lines (reference labels, titles, code spans, raw HTML, emphasis, hard breaks, Setext headings), one symbolic byte at 3 offsets, quoted once and twice", len(multi)),
 		"spec":          fmt.Sprintf("%d TAB/CR-free non-blank examples of _test/spec.json, quoted, against the expected HTML of spec.json wrapped in a blockquote (core, unsafe, XHTML)", nspec),
 		"outside":       "longer free-form documents; quoting depth > 2",
 	}
@@ -1096,6 +1118,7 @@ var c03Templates = []tmpl{
 	{"| a | XX |\n|---|:-:|\n| c | d |", 6, 2}, {"| a |\n|---|\n| XX |", 14, 2}, {"a[^1]\n\n[^1]: XX", 14, 2}, {"a[^XX]\n\n[^XX]: f", 3, 2},
 	{"t XX\n: d", 2, 2}, {"t\n: XX", 5, 2}, {"\"XX\" 'a'", 1, 2}, {"a--XX...", 3, 2}, {"- [ ] XX", 6, 2}, {"~~XX~~", 2, 2},
 	{"www.a.bXX c", 7, 2}, {"http://a.bc/XX d", 12, 2}, {"&XX;", 1, 2}, {"&#XX;", 2, 2}, {"&#xXX;", 3, 2}, {"<XX>", 1, 2}, {"<a XX>", 3, 2}, {"<!--XX-->", 4, 2},
+	{"# t {data-l=[XX]}", 13, 2}, {"# t {k=[\"XX\"]}", 9, 2}, {"# t {class=[a, \"XX\"]}", 17, 2}, {"# t {data-l=[\"a\", XX]}", 18, 2}, {"t {k=[1, XX]}\n---", 9, 2},
 	{"&#x0XX;", 4, 2}, {"&#x00XX;", 5, 2}, {"&#0XX;", 3, 2}, {"&#00XX;", 4, 2}, {"&#000XX;", 5, 2}, {"&#x000XX;", 6, 2}, {"[a](u \"&#x0XX;\")", 11, 2}, {"![&#0XX;](u)", 5, 2}, {"# H {k=\"&#x0XX;\"}", 12, 2},
 	{"[a][XX]\n\n[XX]: u 't'", 4, 2}, {"[a]: u \"XX\"\n\n[a]", 8, 2}, {"`XX`", 1, 2}, {"    XX", 4, 2}, {"> XX", 2, 2}, {"1. XX", 3, 2}, {"\\XX", 1, 2},
 }
@@ -1143,7 +1166,17 @@ func planC03(tier string, seed int64) (*Plan, error) {
 		}
 		jobs = append(jobs, tmplJobs("H_c03_safe", w3[:20], []string{allX})...)
 	}
+	// the typographer with substitutions switched off (a configuration of a built-in extension)
+	typoT := []tmpl{{"<<XX>>", 2, 2}, {"a--XX...", 3, 2}, {"'XX' \"b\"", 1, 2}, {"<<a>>XX<</b>>", 5, 2}, {"![<<XX>>](u)", 4, 2}, {"| <<XX |\n|--|", 5, 2}, {"# <<XX>>", 4, 2}}
+	for _, tc := range []string{cfg("typonoangle", "", ""), cfg("gfm,typonodash", "attr", "xhtml"), cfg("typonoquote,footnote", "", "")} {
+		jobs = append(jobs, tmplJobs("H_c03_safe", typoT, []string{tc})...)
+		for n := 0; n <= 2; n++ {
+			jobs = append(jobs, job("H_c03_safe", "cfg", tc, "n", n))
+		}
+		jobs = append(jobs, job("H_c03_safe", "cfg", tc, "n", 4, "alpha", "<>-.'\"a"))
+	}
 	p.Jobs = jobs
+	b["typographer variants"] = fmt.Sprintf("Typographer with the angle-quote / dash+ellipsis / quote substitutions disabled (nil): %d templates with 2-byte windows, S(2), S(4,{<,>,-,.,',\",a})", len(typoT))
 	b["attack templates"] = fmt.Sprintf("%d templates (image alt/src/title, link destination/title, autolinks, {#id .class k=v data-*} attribute blocks on ATX and Setext headings, info strings, table cells, footnote labels and bodies, definition terms, typographer, task lists, linkify, entities, raw HTML, reference labels/titles) with a 2-byte fully symbolic window x %v (thorough: 3-byte windows on the first 20)", len(c03Templates), tc)
 	b["configurations"] = "safe mode only: " + fmt.Sprint(cfgs)
 	p.Bounds = b
@@ -1201,6 +1234,8 @@ func planC04(tier string, seed int64) (*Plan, error) {
 		{"[a](javascript&XXlon;a)", 15, 2}, {"[a](javascript&coXXn;a)", 17, 2}, {"[a](java&#XX;script:a)", 10, 2}, {"[a](java&TXX;script:a)", 10, 2}, {"[a](javascript\\XXa)", 15, 2},
 		{"[a](\\XXavascript:a)", 5, 2}, {"[a](XXjavascript:a)", 4, 2}, {"[a](<XXjavascript:a>)", 5, 2}, {"[a](javascript%3XXa)", 16, 2}, {"[a](%6XXavascript:a)", 6, 2},
 		{"![a](&#XX6;avascript:a)", 8, 2}, {"[a]: javascript&#XX;a\n\n[a]", 17, 2}, {"[a]: &#XX6;avascript:a\n\n![a]", 8, 2}, {"<javascript&#XX;a>", 13, 2}, {"<&#XX6;avascript:a>", 4, 2},
+		{"[a](&amp;#XX6;avascript:a)", 10, 2}, {"[a](javascript&amp;cXXon;a)", 20, 2}, {"[a](&#38;#XX6;avascript:a)", 10, 2}, {"![a](&amp;#xXX;avascript:a)", 12, 2}, {"[a]: &amp;#XX6;avascript:a\n\n[a]", 11, 2},
+		{"[a](java&amp;TXX;script:a)", 14, 2}, {"[a](&amp;amp;#XX6;avascript:a)", 14, 2},
 		{"[a](dat&#XX;:text/html,x)", 9, 2}, {"[a](data:image/XXg;x)", 15, 2}, {"[a](data:image/svgXXml;x)", 18, 2}, {"![a](data:imageXXpng;x)", 15, 2}, {"[a](fil&#xXX;:///x)", 10, 2},
 		{"[a](vbscript&#XX;x)", 14, 2}, {"[a](&NewLine;javascriptXXa)", 23, 2}, {"[a](java\nscriptXXa)", 15, 2}, {"[a](<java scriptXXa>)", 16, 2},
 	}
@@ -1633,6 +1668,7 @@ var c02Trees = []string{
 	"U{L{P[t1]}}", "U{L{P[t1]} L{P[t1]}}", "V{L{P[t1]} L{P[t1]}}", "V{L{P[t1] P[t1]}}", "O{L{P[t1]} L{P[t1]}}", "W{L{P[t1]} L{P[t1] P[t1]}}",
 	"U{L{P[t1] U{L{P[t1]}}}}", "U{L{P[t1] O{L{P[t1]} L{P[t1]}}} L{P[t1]}}", "V{L{P[t1] F1} L{P[t1] I1}}", "V{L{P[t1] Q{P[t1]}}}", "O{L{P[t1 n t1]}}", "U{L{F1}}", "V{L{H2[t1] P[t1]}}",
 	"U{L{P[t1]}} P[t1]", "P[t1] U{L{P[t1]}} R", "U{L{P[t1]}} O{L{P[t1]}}", "Q{P[t1]} U{L{P[e[t1]]}} H1[t1]",
+	"U{L{} L{P[t1]}}", "V{L{} L{P[t1] P[t1]}}", "V{L{P[t1]} L{} L{P[t1] F1}}", "W{L{} L{P[t1] U{L{P[t1]}}}}", "O{L{P[t1]} L{}}", "Q{V{L{} L{P[t1] I1}}}", "V{L{} L{} L{P[t1] P[t1]}}",
 	"V{L{P[l[t1]] P[i[t1]]}}", "Q{P[l[t2] b t1]}", "U{L{P[t1 b t1]}}", "O{L{P[c1 w p]}}",
 }
 
